@@ -90,7 +90,9 @@ def main():
     T("trace: bcast root 2 -> 1 on every rank", "coll", "trace", lambda d: [edit_trace(d, r, r"bcast 5000 2 ", "bcast 5000 1 ") for r in range(4)])
     T("trace: gather recv count 700 -> 70 at the root", "coll", "trace", lambda d: edit_trace(d, 1, r"gather 700 700 ", "gather 700 70 "))
     T("trace: bcast datatype double -> int on every rank", "coll", "trace", lambda d: [edit_trace(d, r, r"bcast 5000 2 0", "bcast 5000 2 1") for r in range(4)])
-    T("trace: allgatherv one count 700 -> 701 on every rank", "coll", "trace", lambda d: [edit_trace(d, r, r" 700 3000 ", " 701 3000 ") for r in range(4)])
+    # one more element (8 bytes) contributed by rank 3, consistently on every rank
+    T("trace: allgatherv contribution of rank 3 3000 -> 3001", "coll", "trace",
+      lambda d: [edit_trace(d, r, r"allgatherv (\d+) 5 0 700 3000 ", (lambda m, r=r: "allgatherv %s 5 0 700 3001 " % ("3001" if r == 3 else m.group(1)))) for r in range(4)])
     shutil.rmtree(base, ignore_errors=True)
     if FAILED:
         print("FAILED:", FAILED)
